@@ -521,9 +521,14 @@ def _register_int_cells():
                     else:
                         good = lambda: SlidingWindowSplitter(fh=fh, window_length=3, initial_window=valid + 4)  # noqa
                         badsp = lambda: SlidingWindowSplitter(fh=fh, window_length=3, initial_window=bad)  # noqa
-                return dict(control=lambda: list(good().split(ctx.y_train)),
-                            faulty=lambda: list(badsp().split(ctx.y_train)),
-                            sig={"splitter": t, "param": what})
+                # the splitter's other two entry points take the same settings
+                via = ctx.rng.choice(["split", "split", "get_cutoffs", "get_n_splits"]) \
+                    if t in ("sliding", "expanding", "sliding_initial") else "split"
+                use = {"split": lambda sp: list(sp.split(ctx.y_train)),
+                       "get_cutoffs": lambda sp: sp.get_cutoffs(ctx.y_train),
+                       "get_n_splits": lambda sp: sp.get_n_splits(ctx.y_train)}[via]
+                return dict(control=lambda: use(good()), faulty=lambda: use(badsp()),
+                            sig={"splitter": t, "param": what, "via": via})
             cell("split/%s_%s" % (what, m), "malformed_window_step_sp", "entry_splitter")(split_cell)
 
         def naive_window(ctx, m=m):
